@@ -11,11 +11,30 @@ TRUST = ("Trusted base: the asherahverif shims (vsync/vatomic/Chan/vclock/vrand)
          "Coverage is bounded as stated in the evidence (threads, preemptions, depth, deviations, alphabets).")
 
 # id -> (category, technique, text, design_ref, built)
+K_TECH = "explicit-state breadth-first search over operation histories executed on the real SDK under a virtual clock (state = canonical dump of the real object graph), oracle on every transition and state"
 CHECKS = {
+    "C01": ("model_checking", K_TECH,
+            "BFS over histories of encrypt/decrypt (long-lived and per-request sessions of two processes), clock ticks across the precision / revoke-check / expiry thresholds, out-of-band revocation, restart and session close, for several cache configurations; on every transition decrypt results are compared with the original payload and in every state every catalogued record is decrypted by a fresh SDK factory and by an independent reference decryptor over the metastore snapshot.", "6/C01"),
+    "C03": ("model_checking", K_TECH + "; AEAD/KMS/allocator call monitors",
+            "The same history space with monitors on every AEAD, KMS and secret-allocation call: one fresh data key per encrypt used once and wrapped once, no (key, nonce) repeated in a history (deterministic logged random source), payload only under data keys, data keys only under the partition's IK, IKs only under the SK, SK only to the KMS, and a byte-window leak scan of records, rows and log lines.", "6/C03"),
+    "C04": ("model_checking", K_TECH,
+            "The same history space; on every encrypt transition the named IK's age, the parent SK of every IK row written, and the time since the parent SK expired are computed from row stamps and the virtual clock, independently of the SDK's predicates.", "6/C04"),
+    "C05": ("model_checking", K_TECH,
+            "The same history space with a ghost 'revoked at' stamp per row; every encrypt more than one interval after an IK revocation (two after an SK revocation) must not use / create under the revoked key.", "6/C05"),
+    "C06": ("exploration", "exhaustive enumeration of an adversarial id universe (all ordered pairs) on the real SDK",
+            "All concatenations of up to 3 (thorough: 4) tokens from the naming scheme's own vocabulary as partition ids; every ordered pair (P,Q): session P must fail on Q's genuine record; with/without region suffix, two service/product pairs, per-session / shared / no key cache.", "6/C06"),
+    "C07": ("exploration", "bounded-exhaustive mutation enumeration (every single-bit flip, truncation, field recombination, structural case) on the real SDK",
+            "Every single-bit flip and truncation of Data and wrapped key of 4 genuine records, all 4^5 field recombinations, structural cases, loader failures, and every bit flip / truncation / structural corruption of every metastore row, through Decrypt and Load with cold, warm and stale caches; result must be the original payload or an error, never a panic.", "6/C07"),
     "C08": ("model_checking", "stateless schedule exploration of the real code under a controlled scheduler (preemption-bounded DFS + happens-before state caching)",
             "Every interleaving, up to the stated preemption bound, of 2-3 goroutines decrypting/encrypting/opening sessions against one factory "
             "with capacity-1/2 shared key caches of each eviction policy is executed on the real SDK; oracle: every operation succeeds with the right bytes, "
             "no access to a destroyed secret, everything released after close.", "6/C08"),
+    "C09": ("model_checking", K_TECH + "; tracking secret factory accounting",
+            "The same history space with a tracking SecretFactory: after every call data keys are released, with caching disabled nothing stays live, live secrets are exactly the open keys reachable from the caches (walker), at most one per key and cache and never above capacity, and after restart every secret of the closed factory was released exactly once and never touched again.", "6/C09"),
+    "C15": ("model_checking", "explicit-state breadth-first search over cache operation histories on the real cache against reference models",
+            "BFS over Set/Get/Delete/tick/Len/Close histories on 4 keys for lru/lfu/slru/tinylfu, capacities 1..6 and 99/100/101, with/without expiry, synchronous and asynchronous eviction (event goroutine under the controlled scheduler); each step compared with a reference model: values, Len, exact multiset of eviction callbacks, victims per the policy's definition, no panic/deadlock.", "6/C15"),
+    "C19": ("model_checking", "exhaustive enumeration of request sequences against a reference protocol automaton on the real handler",
+            "Every sequence of up to 5 (thorough: 6) requests over a 9-request alphabet plus end-of-stream is sent through an in-memory stream into the real AppEncryption.Session (memory metastore, static KMS); one response per request, protocol state enforced, round-trips verified on a second stream, no panic.", "6/C19"),
 }
 
 NOT_YET = {}
